@@ -208,12 +208,14 @@ impl WriteCircuitBreaker {
     }
 
     fn transition_to_closed(&self) {
-        self.state
-            .store(CircuitState::Closed as u8, Ordering::Release);
-        // Reset all counters
+        // Reset all counters before the state becomes visible as closed: a failure reported
+        // right after the close must start counting from zero, not from the failures that
+        // opened the circuit the last time
         self.failure_count.store(0, Ordering::Release);
         self.half_open_call_count.store(0, Ordering::Release);
         self.half_open_success_count.store(0, Ordering::Release);
+        self.state
+            .store(CircuitState::Closed as u8, Ordering::Release);
     }
 }
 
